@@ -889,7 +889,15 @@ func (s *scope) serves(descriptor *Descriptor, key instanceKey) bool {
 
 // alreadyStored reports whether value is identical to one of the instances handed over before.
 func alreadyStored(stored []any, value any) bool {
-	if !reflect.ValueOf(value).Comparable() {
+	v := reflect.ValueOf(value)
+	if !v.Comparable() {
+		// Slices and maps cannot be compared with ==, but they are the same instance when
+		// they share their storage (an instance of such a type under several identities)
+		for _, previous := range stored {
+			if sameStorage(reflect.ValueOf(previous), v) {
+				return true
+			}
+		}
 		return false
 	}
 
@@ -897,6 +905,22 @@ func alreadyStored(stored []any, value any) bool {
 		if reflect.ValueOf(previous).Comparable() && previous == value {
 			return true
 		}
+	}
+
+	return false
+}
+
+// sameStorage reports whether two slices or maps of one type are the same object.
+func sameStorage(a, b reflect.Value) bool {
+	if !a.IsValid() || !b.IsValid() || a.Type() != b.Type() {
+		return false
+	}
+
+	switch a.Kind() {
+	case reflect.Slice:
+		return a.Len() == b.Len() && a.Cap() == b.Cap() && a.Pointer() == b.Pointer()
+	case reflect.Map:
+		return a.Pointer() == b.Pointer()
 	}
 
 	return false
